@@ -21,6 +21,8 @@
 //	q                         GET the verification handler      -> q <n> <message>*n
 //	r                         POST the reset handler            -> r 204
 //	qbad / rbad               wrong method on the handlers      -> 405, nothing changes
+//	ovl <seed>                overlapping queries: query 1 is held open mid-walk at a watch probe, exchanges run,
+//	                          query 2 starts and must report every failure of an exchange completed before it began
 //	conc <seed> <q|r>         8 goroutines of traffic racing queries (and resets); oracle only; ends with a reset
 //	race <A|B|P|Q>              race-detector run of cmd/c13race (oracle only)
 //	urlstr <s> <h> <p> <q> <f> url.URL.String() against the model's urlString
@@ -156,8 +158,51 @@ func (w *watch) doReset(s int) {
 }
 func (w *watch) ModifyRequest(*http.Request) error   { w.eval(0); return nil }
 func (w *watch) ModifyResponse(*http.Response) error { w.eval(1); return nil }
-func (w *watch) VerifyRequests() error               { w.eval(0); return nil }
-func (w *watch) VerifyResponses() error              { w.eval(1); return nil }
+func (w *watch) VerifyRequests() error               { watchGate.pass(); w.eval(0); return nil }
+func (w *watch) VerifyResponses() error              { watchGate.pass(); w.eval(1); return nil }
+
+// gate: while armed, a verify walk that reaches a watch probe stops there until the controller lets
+// it go on (one token) or opens the gate for everybody. This holds a query open mid-walk,
+// deterministically, so that other queries and traffic can be made to overlap it (op ovl).
+type gate struct {
+	mu      sync.Mutex
+	armed   bool
+	entered chan struct{}
+	token   chan struct{}
+	open    chan struct{}
+}
+
+var watchGate gate
+
+func (g *gate) arm() {
+	g.mu.Lock()
+	g.armed, g.entered, g.token, g.open = true, make(chan struct{}, 64), make(chan struct{}), make(chan struct{})
+	g.mu.Unlock()
+}
+func (g *gate) disarm() {
+	g.mu.Lock()
+	if g.armed {
+		g.armed = false
+		close(g.open)
+	}
+	g.mu.Unlock()
+}
+func (g *gate) pass() {
+	g.mu.Lock()
+	armed, entered, token, open := g.armed, g.entered, g.token, g.open
+	g.mu.Unlock()
+	if !armed {
+		return
+	}
+	select {
+	case entered <- struct{}{}:
+	default:
+	}
+	select {
+	case <-token:
+	case <-open:
+	}
+}
 func (w *watch) ResetRequestVerifications()          { w.doReset(0) }
 func (w *watch) ResetResponseVerifications()         { w.doReset(1) }
 
@@ -1448,6 +1493,15 @@ func (e *ex) Do(op string) core.Result {
 			res.Fail, res.Sig = "after an API request passed through the tree: "+r.Fail, r.Sig
 		}
 		return res
+	case "ovl":
+		if e.im.w != nil || len(f) != 2 {
+			return core.Result{Impl: "bad-op"}
+		}
+		seed, err := strconv.ParseUint(f[1], 10, 64)
+		if err != nil {
+			return core.Result{Impl: "bad-op"}
+		}
+		return e.overlap(seed)
 	case "conc":
 		if e.im.w != nil {
 			return core.Result{Impl: "bad-op"}
@@ -1683,6 +1737,178 @@ func (e *ex) concurrent(seed uint64, withResets bool) core.Result {
 	}
 	if _, r := e.checkedQuery(); r.Fail != "" {
 		return core.Result{Impl: "conc", Fail: "after the final reset: " + r.Fail, Sig: r.Sig}
+	}
+	return res
+}
+
+// ---------------------------------------------------------------------------------------------
+// overlapping queries (op ovl). Query 1 is let through `hold` watch probes and then held at the
+// next one it reaches (if it reaches none it simply completes: nothing to overlap). While it is
+// held, ovlK exchanges run, each in its own goroutine (one that has to wait for a lock query 1
+// holds stays in flight). Then query 2 starts: by the property it must report every failure of
+// every exchange that had COMPLETED before it began, and (like query 1) everything recorded before
+// the op. Then the gate is opened. Each query is judged by its own start.
+
+const ovlK = 6
+
+func (e *ex) overlap(seed uint64) (res core.Result) {
+	r := core.NewRand(seed)
+	hold := int(seed % 3)
+	msgs := make([]*msg, ovlK)
+	unmet := make([]map[key]int, ovlK)
+	for i := range msgs {
+		msgs[i] = genMsg(r, 2000000+int(seed%1000)*10+i)
+		if _, dup := e.or.epoch[msgs[i].id]; dup {
+			return core.Result{Impl: "bad-op"}
+		}
+		u, _ := e.or.failuresOf(msgs[i])
+		unmet[i] = map[key]int{}
+		for _, l := range u {
+			unmet[i][key{msgs[i].id, tagOf(l.n)}]++
+		}
+	}
+	pre := e.or.expected()
+	delete(pre, key{-1, "ping"})
+	im := e.im
+	type qres struct {
+		msgs    []string
+		problem string
+	}
+	watchGate.arm()
+	defer watchGate.disarm()
+	q1 := make(chan qres, 1)
+	go func() { m, p := im.query(); q1 <- qres{m, p} }()
+	held := false
+	var r1 *qres
+	for passed := 0; !held && r1 == nil; {
+		select {
+		case <-watchGate.entered:
+			if passed < hold {
+				passed++
+				select {
+				case watchGate.token <- struct{}{}:
+				case <-time.After(2 * time.Second):
+				}
+			} else {
+				held = true
+			}
+		case x := <-q1:
+			r1 = &x
+		case <-time.After(5 * time.Second):
+			watchGate.disarm()
+			x := <-q1
+			return core.Result{Impl: "ovl", SkipModel: true, Fail: "query 1 neither finished nor reached a probe within 5 s: " + x.problem, Sig: "hang"}
+		}
+	}
+	var done [ovlK]atomic.Bool
+	var wg sync.WaitGroup
+	for i := range msgs {
+		wg.Add(1)
+		go func(i int) { defer wg.Done(); im.traffic(msgs[i]); done[i].Store(true) }(i)
+	}
+	for t0 := time.Now(); time.Since(t0) < 60*time.Millisecond; time.Sleep(200 * time.Microsecond) {
+		all := true
+		for i := range done {
+			all = all && done[i].Load()
+		}
+		if all {
+			break
+		}
+	}
+	var completed [ovlK]bool
+	nc := 0
+	for i := range done {
+		if completed[i] = done[i].Load(); completed[i] {
+			nc++
+		}
+	}
+	q2 := make(chan qres, 1)
+	go func() { m, p := im.query(); q2 <- qres{m, p} }()
+	var r2 *qres
+	if held {
+		select { // let query 2 get as far as it can while query 1 is still held
+		case x := <-q2:
+			r2 = &x
+		case <-watchGate.entered:
+		case <-time.After(40 * time.Millisecond):
+		}
+		core.Count("ovl:query1-held-mid-walk")
+		core.Stats["ovl:exchanges-completed-while-held"] += nc
+	} else {
+		core.Count("ovl:query1-not-held")
+	}
+	watchGate.disarm()
+	wait := func(c chan qres, have *qres) (qres, bool) {
+		if have != nil {
+			return *have, true
+		}
+		select {
+		case x := <-c:
+			return x, true
+		case <-time.After(10 * time.Second):
+			return qres{}, false
+		}
+	}
+	x1, ok1 := wait(q1, r1)
+	x2, ok2 := wait(q2, r2)
+	wgDone := make(chan struct{})
+	go func() { wg.Wait(); close(wgDone) }()
+	select {
+	case <-wgDone:
+	case <-time.After(10 * time.Second):
+		return core.Result{Impl: "ovl", SkipModel: true, Fail: "exchanges did not finish after the gate was opened", Sig: "hang"}
+	}
+	for _, m := range msgs {
+		e.or.traffic(m)
+	}
+	// the exchanges ran concurrently, so the order inside a verifier's list is not determined: the op
+	// ends with a reset (as conc does), after which model and implementation agree again
+	res = core.Result{Impl: "ovl"}
+	defer func() {
+		if code := im.reset(); code != 204 && res.Fail == "" {
+			res.Fail, res.Sig = "reset handler answered "+strconv.Itoa(code), "c13:handler"
+		}
+		e.or.reset()
+	}()
+	if !ok1 || !ok2 {
+		res.Fail, res.Sig = "a query did not return within 10 s after the gate was opened", "hang"
+		return res
+	}
+	for qi, x := range []qres{x1, x2} {
+		if x.problem != "" {
+			res.Fail, res.Sig = fmt.Sprintf("verification handler (overlapping query %d): %s", qi+1, x.problem), "c13:handler"
+			return res
+		}
+		got := count(x.msgs)
+		need, may := map[key]int{}, map[key]int{}
+		for k, n := range pre {
+			need[k], may[k] = n, n
+		}
+		for i := range msgs {
+			for k, n := range unmet[i] {
+				may[k] += n
+				if qi == 1 && completed[i] {
+					need[k] += n
+				}
+			}
+		}
+		for k, n := range need {
+			if got[k] < n {
+				res.Fail = fmt.Sprintf("overlapping queries: query %d lost a failure: exchange m%d (%s verifier) completed before this query began (query 1 was still in progress, held mid-walk: %v), reported %d of %d", qi+1, k.id, k.tag, held, got[k], n)
+				res.Sig = "c13:overlap-lost"
+				return res
+			}
+		}
+		for k, g := range got {
+			if k.tag != "ping" && g > may[k] {
+				res.Fail = fmt.Sprintf("overlapping queries: query %d reports exchange m%d, %s verifier %d time(s), at most %d possible", qi+1, k.id, k.tag, g, may[k])
+				res.Sig = "c13:conc-extra"
+				return res
+			}
+		}
+	}
+	if _, rq := e.checkedQuery(); rq.Fail != "" {
+		res.Fail, res.Sig = "after the overlapping queries: "+rq.Fail, rq.Sig
 	}
 	return res
 }
